@@ -114,6 +114,16 @@ def run(ctx):
         exprs.append(engine.case_expr(case['spec'], case['poi'], case['st'], [(p, data0) for p in pts]))
         refexprs.append('run_ref [] %s %s %s' % (engine.spec_to_coq(case['spec'], case['poi']), engine.settings_to_coq(case['st']),
                                                  core.clist([thetas_of(cfg, p) for p in pts], thetas_to_coq)))
+    layout_bad = 0
+    try:
+        lres = core.coq_eval(ctx, 'layout', engine.HEADER, ['run_layout %s' % engine.spec_to_coq(c['spec'], c['poi']) for c in cases], shard=40)
+        for c, im, r in zip(cases, impls, lres):
+            if im['build'] == 'ok' and 'layout-ok' not in r:
+                layout_bad += 1
+                ctx.coverage.setdefault('first_disagreement', dict(case=c, what='premise layout_okb of C01_expected_data_refines_partial: ' + r))
+                tie = tie or ('premise layout_okb of the refinement theorem is false on a generated model: ' + r)
+    except core.CoqEvalError as e:
+        tie = tie or ('model evaluation failed: ' + str(e)[-1200:])
     try:
         res = core.coq_eval(ctx, 'impl', engine.HEADER, exprs, shard=20)
         refidx = [i for i, e in enumerate(refexprs) if e is not None]
@@ -232,7 +242,7 @@ def run(ctx):
                              'settings; clip off / per-bin / per-sample; 3 parameter points per spec from the regime grid, breakpoint '
                              'neighbours and random dyadics (integer alpha for normsys). non-trivial = >=2 channels or samples, >=1 modifier '
                              'acting on a strict subset of cells; distinct = distinct shape signature + settings',
-                        stats=stats, cases=len(cases), model_impl_disagreements=ndis, backend_runs=nb,
+                        stats=stats, cases=len(cases), model_impl_disagreements=ndis, backend_runs=nb, layout_premise_false=layout_bad,
                         samples=[dict(spec=cases[0]['spec'], settings=cases[0]['st'], pars=impls[0].get('points', [None])[0],
                                       impl_expected=(impls[0].get('evals') or [{}])[0].get('expected'))])
 
